@@ -271,14 +271,14 @@ def trajectory_cases(base_cases, tier, rng):
 PLANS = {
     "C01": dict(rel=rel_C01, also={"neg": dict(variants=1, generic=2, corners=0)}, want={"np": True, "fn": fns((0,))},
                 quick=dict(n=3, m=3, variants=3, generic=1, corners=13, rand=60),
-                thorough=dict(n=4, m=5, variants=3, generic=2, corners=13, rand=1500)),
+                thorough=dict(n=4, m=5, variants=1, generic=1, corners=13, rand=600)),
     "C02": dict(rel=rel_C02, traj=True, also={"neg": dict(variants=2, generic=2, corners=1)}, want={"np": True, "fn": fns((0,), more_out=(True,))},
                 quick=dict(n=3, m=3, variants=2, generic=1, corners=13, rand=60),
-                thorough=dict(n=4, m=5, variants=3, generic=2, corners=13, rand=1500)),
+                thorough=dict(n=4, m=4, variants=2, generic=1, corners=13, rand=600)),
     "C03": dict(rel=rel_C03, traj=True, also={"opts": dict(variants=1, generic=1, corners=1), "neg": dict(variants=1, generic=1, corners=0)},
                 want={"np": True, "fn": fns((0, 1, 2))},
                 quick=dict(n=3, m=3, variants=1, generic=1, corners=13, rand=40),
-                thorough=dict(n=4, m=5, variants=2, generic=2, corners=13, rand=1000)),
+                thorough=dict(n=4, m=4, variants=1, generic=2, corners=13, rand=500)),
     "C05": dict(rel=rel_C05, traj=True, want=lambda c: {"np": False, "fn": fns((0, 1, 2), more_out=(True,))
                                              + fns((0,), more_out=(True,), syms=("SX",), generic_calls=2,
                                                    params=[{"kind": "T", "el": "*"}, {"kind": "C", "el": "*"},
@@ -287,43 +287,43 @@ PLANS = {
                                              + fns((1,), more_out=(True,), syms=("MX",), generic_calls=2, first_bare=True,
                                                    params=[{"kind": k_, "el": l_} for k_ in ("rho_crit", "rho_max", "a") for l_ in c["net"]["links"]])},
                 quick=dict(n=3, m=3, variants=1, generic=1, corners=13, rand=40),
-                thorough=dict(n=4, m=5, variants=3, generic=1, corners=3, rand=1000)),
+                thorough=dict(n=4, m=4, variants=2, generic=1, corners=3, rand=500)),
     "C07": dict(rel=rel_C07, want={"np": True, "np_own": True, "fn": fns((-1, 0, 1, 2, 3)) + fns((2,), more_out=(True,))},
                 quick=dict(n=3, m=3, variants=1, generic=1, corners=13, rand=40),
-                thorough=dict(n=4, m=5, variants=3, generic=1, corners=4, rand=600)),
+                thorough=dict(n=4, m=4, variants=2, generic=1, corners=4, rand=400)),
     "C10": dict(rel=rel_C10, want={"np": True, "sens": True, "jac": ["SX", "MX"]},
                 quick=dict(n=3, m=3, variants=2, generic=1, corners=0, rand=40),
-                thorough=dict(n=4, m=5, variants=4, generic=1, corners=2, rand=600)),
+                thorough=dict(n=4, m=4, variants=2, generic=1, corners=2, rand=300)),
     "C04": dict(rel=rel_C04, traj=True, derive=("perm", "names"),
                 derived_want={"np": False, "fn": fns((0, 1, 2), more_out=(True,), generic_calls=2) + fns((-1, 3), more_out=(False,), syms=("SX",))}, also={"opts": dict(variants=1, generic=1, corners=0)}, want=lambda c: {"np": False, "fn": fns((-1, 0, 1, 2, 3), more_out=(False, True), generic_calls=2)
                                              + param_fns(c, levels=(0, 1, 2), more_out=(True,), nsets=1)},
                 quick=dict(n=3, m=3, variants=1, generic=1, corners=0, rand=30, nderive=2),
-                thorough=dict(n=4, m=5, variants=3, generic=1, corners=0, rand=400, nderive=1)),
+                thorough=dict(n=4, m=4, variants=2, generic=1, corners=0, rand=200, nderive=1)),
     "C11": dict(rel=rel_C11, family="opts", want={"np": True, "np_plain": True, "fn": fns((0,)) + fns((2,), syms=("SX",)) + fns((1,), more_out=(True,), syms=("MX",))
                                                               # initial conditions supplied by the caller as EXPRESSIONS of its own symbols
                                                               + fns((0,), syms=("MX",), generic_calls=2, pre="fmaxm20") + fns((1,), syms=("SX",), generic_calls=2, pre="affine")},
                 quick=dict(n=3, m=3, variants=1, generic=4, corners=4, rand=0),
-                thorough=dict(n=4, m=4, variants=2, generic=8, corners=13, rand=0)),
+                thorough=dict(n=4, m=4, variants=1, generic=6, corners=13, rand=0)),
     "C12": dict(rel=rel_C12, also={"opts": dict(variants=1, generic=1, corners=0), "neg": dict(variants=1, generic=1, corners=0)},
                 want={"np": True, "pure": True, "fn": []},
                 quick=dict(n=3, m=3, variants=2, generic=1, corners=3, rand=60),
-                thorough=dict(n=4, m=5, variants=3, generic=2, corners=13, rand=1000)),
+                thorough=dict(n=4, m=4, variants=2, generic=2, corners=13, rand=600)),
     "C13": dict(rel=rel_C13, want={"np": False, "spy": True, "fn": []},
                 quick=dict(n=3, m=3, variants=2, generic=1, corners=1, rand=40),
-                thorough=dict(n=4, m=5, variants=3, generic=1, corners=3, rand=600)),
+                thorough=dict(n=4, m=4, variants=2, generic=1, corners=3, rand=400)),
     "C14": dict(rel=rel_C14, derive=("perm", "scale", "dupnames"), want={"np": True, "fn": fns((0,)) + fns((1,), syms=("SX",))},
                 quick=dict(n=3, m=3, variants=3, generic=1, corners=0, rand=30, nderive=2),
-                thorough=dict(n=4, m=5, variants=3, generic=1, corners=1, rand=400, nderive=2)),
+                thorough=dict(n=4, m=4, variants=2, generic=1, corners=1, rand=300, nderive=2)),
     "C18": dict(rel=rel_C18, family="neutral", want={"np": True, "twin": True, "fn": fns((0,))},
                 quick=dict(n=3, m=3, variants=3, generic=1, corners=2, rand=0),
-                thorough=dict(n=4, m=5, variants=5, generic=2, corners=4, rand=0)),
+                thorough=dict(n=4, m=4, variants=4, generic=2, corners=4, rand=0)),
     "C16": dict(rel=rel_C16, want=lambda c: {"np": False, "fn": param_fns(c, levels=(0, 2), more_out=(False, True), nsets=3)
                                              + fns((0,), more_out=(True,), syms=("SX" if sum(c["id"].encode()) % 2 else "MX",))},
                 quick=dict(n=3, m=3, variants=3, generic=1, corners=1, rand=30),
-                thorough=dict(n=4, m=5, variants=3, generic=1, corners=3, rand=300)),
+                thorough=dict(n=4, m=4, variants=2, generic=1, corners=3, rand=300)),
     "C17": dict(rel=rel_C17, traj=True, want={"np": True, "fn": fns((0,), more_out=(True,))},
                 quick=dict(n=3, m=3, variants=2, generic=1, corners=13, rand=60),
-                thorough=dict(n=4, m=5, variants=3, generic=2, corners=13, rand=1500)),
+                thorough=dict(n=4, m=5, variants=1, generic=1, corners=13, rand=600)),
 }
 
 
